@@ -23,6 +23,7 @@ type deco struct {
 	k, v   string
 	k2, v2 string // optional second keyword inserted together with the first
 	k3, v3 string
+	only07 bool // applies to bases under the draft-07 $schema only
 }
 
 func decorations() []deco {
@@ -55,6 +56,11 @@ func decorations() []deco {
 	for _, kv := range [][2]string{{"id", `"http://x/y"`}, {"id", `1`}, {"$recursiveRef", `"#"`}, {"$recursiveAnchor", `true`}, {"nullable", `true`}, {"divisibleBy", `7`}, {"extends", `{"type":"string"}`}, {"disallow", `["object"]`},
 		{"$data", `"/a"`}, {"discriminator", `{"propertyName":"a"}`}, {"xml", `{}`}, {"example", `1`}, {"minContainss", `9`}, {"patternRequired", `["^z"]`}} {
 		d = append(d, deco{k: kv[0], v: kv[1]})
+	}
+	// keywords that only later drafts know are unknown keywords in a draft-07 document
+	for _, kv := range [][2]string{{"prefixItems", `[{"type":"string"}]`}, {"prefixItems", `[false]`}, {"minContains", `0`}, {"minContains", `5`}, {"maxContains", `0`}, {"unevaluatedItems", `false`},
+		{"unevaluatedProperties", `false`}, {"dependentRequired", `{"a":["zz"]}`}, {"dependentSchemas", `{"a":false}`}} {
+		d = append(d, deco{k: kv[0], v: kv[1], only07: true})
 	}
 	for _, k := range []string{"x", "Extra"} {
 		for _, v := range []string{`1e400`, `-1e400`, `[1e400]`, `{"a":1e400}`, `12345678901234567890`, `0.1000000000000000000001`, `{"$id":"http://o/","$anchor":"k","$dynamicAnchor":"k","$ref":"#/nope"}`, `[{"$ref":"#/nope"}]`} {
@@ -301,6 +307,10 @@ func bases(thorough bool) []base {
 	} {
 		out = append(out, base{t, ref.D2020, []string{`[1,"x",2]`, `[[1]]`, `{"a":1,"ab":2}`}})
 	}
+	// enum / const members that float64 only approximates (a decoration must not change how they are read)
+	for _, t := range []string{`{"enum":[0.1,3.14,"a"]}`, `{"const":0.1}`, `{"properties":{"a":{"enum":[0.1,9007199254740993]}},"items":{"enum":[2.2]}}`, `{"not":{"enum":[0.3]}}`} {
+		out = append(out, base{t, ref.D2020, []string{`0.1`, `3.14`, `2.2`, `0.3`, `{"a":0.1}`, `[2.2,0.1]`, `0.30000000000000004`}})
+	}
 	// draft-07: $ref with siblings (the siblings are ignored, whatever decorates them)
 	n = 0
 	for _, t := range s07.List {
@@ -383,6 +393,9 @@ func Run(r *ev.Run) {
 		}
 		for _, ptr := range pointersOf(b.text, b.draft) {
 			for _, d := range mine {
+				if d.only07 && b.draft != ref.D07 {
+					continue
+				}
 				text, ok := decorate(tree, ptr, d)
 				if !ok {
 					continue
